@@ -16,7 +16,7 @@ EXTENDS Rat, FiniteSets, TLC, Json
 
 CONSTANTS ModNonNeg,  \* TRUE: modulo is only defined for non-negative operands (XMILE side), FALSE: Python's %
           Envs,       \* Seq of environments: [a |-> rational, b |-> ..., c |-> ...]
-          Family,     \* which family of trees to enumerate: "pairs" | "chains" | "depth2" | "xpairs"
+          Family,     \* which family of trees to enumerate: "pairs" | "chains" | "depth2" | "shared"
           BinOps,     \* binary operators in play
           Fn1, Fn2    \* unary / binary functions in play
 
@@ -39,13 +39,19 @@ Logic == {"and", "or"}
 A == Var("a")
 B == Var("b")
 C == Var("c")
+T == Var("t")          \* the simulation time (sd.time() / TIME); every evaluation happens at time TimeVal
+U == Var("u")          \* a Python variable bound to a sub-expression OBJECT that is used more than once (family "shared")
+TimeVal == <<1, 1>>
 Leaves == {A, B, C, Lit(<<2, 1>>), Lit(<<1, 2>>)}
 
 (***************************** reference value ****************************)
 Bool(p) == IF p THEN R(1) ELSE R(0)
+RECURSIVE Fact(_)
+Fact(n) == IF n = 0 THEN 1 ELSE n * Fact(n - 1)
+IPow2(n) == R(Fact(n))
 RECURSIVE Eval(_, _)
 Eval(t, env) ==
-    CASE t.k = "var" -> env[t.n]
+    CASE t.k = "var" -> IF t.n = "t" THEN TimeVal ELSE env[t.n]
       [] t.k = "lit" -> t.q
       [] t.k = "neg" -> Neg(Eval(t.x, env))
       [] t.k = "bin" ->
@@ -74,7 +80,8 @@ Eval(t, env) ==
                   [] t.f = "sqrt" -> SqrtR(x)
                   [] t.f = "exp" -> IF x[1] = 0 THEN R(1) ELSE Undef
                   [] t.f = "round" -> IF x[2] = 2 THEN Undef ELSE R(Floor(Add(x, <<1, 2>>)))     \* half-way cases excluded
-                  [] t.f = "int" -> IF IsInt(x) THEN Undef ELSE R(Floor(x)))            \* largest integer below; integers are the discontinuities
+                  [] t.f = "int" -> IF IsInt(x) THEN Undef ELSE R(Floor(x))            \* largest integer below; integers are the discontinuities
+                  [] t.f = "factorial" -> IF IsInt(x) /\ x[1] >= 0 /\ x[1] <= 7 THEN IPow2(x[1]) ELSE Undef)
       [] t.k = "fn2" ->
            LET x == Eval(t.x, env)  y == Eval(t.y, env) IN
            IF ~IsDef(x) \/ ~IsDef(y) \/ ~Apart(x, y) THEN Undef
@@ -85,7 +92,7 @@ Eval(t, env) ==
 LitPy(q) == IF q[2] = 1 THEN ToString(q[1]) ELSE "(" \o ToString(q[1]) \o "/" \o ToString(q[2]) \o ".0)"
 RECURSIVE PyText(_)
 PyText(t) ==
-    CASE t.k = "var" -> t.n
+    CASE t.k = "var" -> IF t.n = "t" THEN "sd.time()" ELSE t.n
       [] t.k = "lit" -> LitPy(t.q)
       [] t.k = "neg" -> "(-" \o PyText(t.x) \o ")"
       [] t.k = "bin" -> IF t.op = "and" THEN "sd.And(" \o PyText(t.l) \o ", " \o PyText(t.r) \o ")"
@@ -109,7 +116,7 @@ NameX(n, style) == IF style = "red" THEN n ELSE n
 RECURSIVE XText(_, _)
 XText(t, style) ==
     LET sub(u, need) == IF need \/ (style = "red" /\ u.k \notin {"var", "lit"}) THEN Par(XText(u, style)) ELSE XText(u, style) IN
-    CASE t.k = "var" -> t.n
+    CASE t.k = "var" -> IF t.n = "t" THEN "TIME" ELSE t.n
       [] t.k = "lit" -> LitX(t.q)
       [] t.k = "neg" -> "-" \o sub(t.x, Prec(t.x) < 8 /\ t.x.k \notin {"var", "lit", "fn1", "fn2"})
       [] t.k = "bin" ->
@@ -120,7 +127,7 @@ XText(t, style) ==
            IN (sub(t.l, lneed) \o sp \o XOp(t.op) \o sp \o sub(t.r, rneed))
       [] t.k = "not" -> "NOT " \o Par(XText(t.c, style))
       [] t.k = "if" -> "IF " \o XText(t.c, style) \o " THEN " \o sub(t.x, t.x.k = "if") \o " ELSE " \o sub(t.y, t.y.k = "if")
-      [] t.k = "fn1" -> (CASE t.f = "abs" -> "ABS" [] t.f = "sqrt" -> "SQRT" [] t.f = "exp" -> "EXP" [] t.f = "round" -> "ROUND" [] t.f = "int" -> "INT")
+      [] t.k = "fn1" -> (CASE t.f = "abs" -> "ABS" [] t.f = "sqrt" -> "SQRT" [] t.f = "exp" -> "EXP" [] t.f = "round" -> "ROUND" [] t.f = "int" -> "INT" [] t.f = "factorial" -> "FACTORIAL")
                         \o Par(XText(t.x, style))
       [] t.k = "fn2" -> (CASE t.f = "min" -> "MIN" [] t.f = "max" -> "MAX" [] t.f = "safediv" -> "SAFEDIV")
                         \o Par(XText(t.x, style) \o ", " \o XText(t.y, style))
@@ -128,7 +135,7 @@ XText(t, style) ==
 (******************************** families *********************************)
 Ops2 == BinOps
 \* operand menu for position tests: an element or a literal (literal operands route through __radd__ etc.)
-Inner(o) == {Bin(o, A, B), Bin(o, B, C), Bin(o, Lit(<<2, 1>>), B), Bin(o, A, Lit(<<2, 1>>))}
+Inner(o) == {Bin(o, A, B), Bin(o, B, C), Bin(o, Lit(<<2, 1>>), B), Bin(o, A, Lit(<<2, 1>>)), Bin(o, T, B), Bin(o, A, T)}
 \* every (outer, position, inner) nesting of two binary operators
 Pairs == UNION {{Bin(o, i, C), Bin(o, C, i), Bin(o, i, Lit(<<2, 1>>)), Bin(o, Lit(<<2, 1>>), i)} : o \in Ops2, i \in UNION {Inner(o2) : o2 \in Ops2}}
 \* unary / function wrappers around and inside binary operators
@@ -144,6 +151,9 @@ Wraps == {NegT(i) : i \in UNION {Inner(o) : o \in Ops2}}
 CmpT == {Bin(">", A, B), Bin("<=", A, C), Bin("<", B, C)}
 Conds == CmpT \cup {Bin("and", x, y) : x, y \in CmpT} \cup {Bin("or", x, y) : x, y \in CmpT} \cup {NotT(x) : x \in CmpT}
         \cup {NotT(Bin("and", x, y)) : x, y \in CmpT}
+        \* AND and OR mixed in one condition, every grouping
+        \cup {Bin("or", Bin("and", x, y), z) : x, y, z \in CmpT} \cup {Bin("and", x, Bin("or", y, z)) : x, y, z \in CmpT}
+        \cup {Bin("or", x, Bin("and", y, z)) : x, y, z \in CmpT} \cup {Bin("and", Bin("or", x, y), z) : x, y, z \in CmpT}
 Ifs == {IfT(c, x, y) : c \in Conds, x \in {A, Bin("-", A, B)}, y \in {C, Bin("+", B, C)}}
        \cup {Bin(o, IfT(c, A, B), C) : o \in Ops2 \cap Arith, c \in CmpT} \cup {Bin(o, C, IfT(c, A, B)) : o \in Ops2 \cap Arith, c \in CmpT}
        \cup {Bin(o, c, A) : o \in {"+", "*", "-"}, c \in CmpT} \cup {Bin(o, A, c) : o \in {"+", "*", "-"}, c \in CmpT}
@@ -153,9 +163,16 @@ Chains == UNION {{Bin(o, A, Bin(o, B, Bin(o, C, A))), Bin(o, Bin(o, Bin(o, A, B)
 RECURSIVE Depth(_)
 Depth(n) == IF n = 0 THEN Leaves
             ELSE LET d == Depth(n - 1) IN d \cup {Bin(o, x, y) : o \in Ops2, x \in d, y \in d} \cup {NegT(x) : x \in d}
+\* programs that bind a sub-expression object once (u = ...) and use the object in two further expressions:
+\* both uses must have the value of their own tree, whatever the other use is
+SharedSubs == UNION {Inner(o) : o \in Ops2 \cap Arith} \cup {NegT(A), F1("abs", Bin("-", A, B))}
+UsesOf == {Bin(o, U, C) : o \in Ops2 \cap Arith} \cup {Bin(o, C, U) : o \in Ops2 \cap Arith}
+          \cup {NegT(U), F1("abs", U), F2("max", U, C), Bin("-", Bin("+", U, C), A), Bin("-", A, Bin("-", U, C))}
+Shared == {[k |-> "prog", u |-> s, e1 |-> x, e2 |-> y] : s \in SharedSubs, x \in UsesOf, y \in UsesOf}
 Trees == CASE Family = "pairs" -> Pairs \cup Wraps \cup Ifs
            [] Family = "chains" -> Chains
            [] Family = "depth2" -> Depth(2)
+           [] Family = "shared" -> Shared
 
 \* the core every reading of "supported grammar" contains: arithmetic operators, parentheses, unary minus, references, numbers
 RECURSIVE IsCore(_)
@@ -166,7 +183,11 @@ IsCore(t) == CASE t.k \in {"var", "lit"} -> TRUE
 
 (******************************* enumeration *******************************)
 Values(t) == [e \in DOMAIN Envs |-> Eval(t, Envs[e])]
-Out(t) == [py |-> PyText(t), xmin |-> XText(t, "min"), xred |-> XText(t, "red"), xtight |-> XText(t, "tight"), val |-> Values(t), core |-> IsCore(t)]
+WithU(env, s) == [n \in {"a", "b", "c", "u"} |-> IF n = "u" THEN Eval(s, env) ELSE env[n]]
+OutProg(p) == [bind |-> PyText(p.u), py |-> PyText(p.e1), py2 |-> PyText(p.e2),
+               val |-> [e \in DOMAIN Envs |-> Eval(p.e1, WithU(Envs[e], p.u))], val2 |-> [e \in DOMAIN Envs |-> Eval(p.e2, WithU(Envs[e], p.u))]]
+Out(t) == IF t.k = "prog" THEN OutProg(t) ELSE
+          [py |-> PyText(t), xmin |-> XText(t, "min"), xred |-> XText(t, "red"), xtight |-> XText(t, "tight"), val |-> Values(t), core |-> IsCore(t)]
 Init == tree \in Trees /\ done = FALSE
 Next == ~done /\ done' = TRUE /\ UNCHANGED tree
 Emit == done => PrintT(ToJson(Out(tree)))
